@@ -5,8 +5,10 @@ listing lines it prints.  MC_Decoder checks ByteComplete on the model; TV_Decode
 accepted input, that the hex column of the real listing is exactly those segments in order (every
 byte once), that there is one opcode/implicit line group per delivered call, that the numbers
 printed equal the delivered operands, and that Disassemble fails exactly when Decode fails, with
-the same error."""
-from lib import vlib, deccheck
+the same error.  cmd/disivg (anchored by the property) is bound through Cli.tla: GEN_Cli generates
+every command sequence up to depth 3 / 4 and the real binary is replayed step by step (the listing
+written to standard output or to the -o file is the complete listing and nothing else)."""
+from lib import vlib, deccheck, clicheck
 
 KINDS = {"listing bytes", "listing values", "listing text", "listing has extra lines", "outcome differs"}
 
@@ -18,28 +20,13 @@ def run(ctx):
     fams = ["corpus-nocuts", "opsweep", "meta", "random", "alphabet", "adversarial"]
     cov = deccheck.run_decoder_traces(ctx, fams, 1500 if quick else 100000, KINDS,
                                       "disassembly differs from the decoding machine's listing")
-    # cmd/disivg is a thin file wrapper: same bytes as the library call, non-zero exit on a rejected file
-    import os, subprocess
-    tool = os.path.join(ctx.tmp, "disivg")
-    b = subprocess.run(["go", "build", "-o", tool, "./cmd/disivg"], cwd=vlib.REPO, env=dict(os.environ, **vlib.GOENV),
-                       capture_output=True, text=True)
-    if b.returncode != 0:
-        raise vlib.Broken("cmd/disivg does not build:\n" + b.stderr)
-    cli = 0
-    for name in ("favicon.ivg", "gradient.ivg", "arcs.ivg"):
-        f = os.path.join(vlib.REPO, "testdata", name)
-        a = subprocess.run([tool, f], capture_output=True)
-        lib, _ = ctx.run_harness(["dis", f], check=False)
-        cli += 1
-        if a.returncode != 0 or a.stdout.decode("utf-8", "replace") != lib.stdout:
-            ctx.violation("disivg:" + name, "cmd/disivg output differs from decode.Disassemble", dict(file=name, exit=a.returncode))
-    bad = os.path.join(ctx.tmp, "bad.ivg")
-    open(bad, "wb").write(open(os.path.join(vlib.REPO, "testdata", "favicon.ivg"), "rb").read()[:-3])
-    a = subprocess.run([tool, bad], capture_output=True)
-    if a.returncode == 0:
-        ctx.violation("disivg:rejected", "cmd/disivg exits 0 on an input the decoder rejects", dict(stdout=a.stdout[-200:].decode("utf-8", "replace")))
-    mc = ctx.mc[-1]
-    coverage = dict(disivg_files=cli, states=mc["distinct"], transitions=mc["generated"],
+    mcdec = ctx.mc[-1]
+    # cmd/disivg (anchored by the property): Cli.tla / GEN_Cli - every command sequence up to depth 3 (4) over
+    # 4 inputs x (stdout, a fresh file, a pre-existing file): the listing written is the complete listing and
+    # nothing else, whatever the output file held before; rejected inputs exit non-zero and write nothing
+    cli = clicheck.run_cli(ctx, "GEN_Cli" if quick else "GEN_Cli_t")
+    mc = mcdec
+    coverage = dict(disivg=cli, states=mc["distinct"], transitions=mc["generated"],
                     traces_validated_against_impl=cov["inputs"],
                     samples=vlib.sample_lines(cov["files"][2], 2, 1200),
                     evaluations=cov["events"], distinct_nontrivial=cov["inputs"],
